@@ -11,5 +11,6 @@ mkdir -p .build
 [ -L .build/repo ] || ln -sfn /repo .build/repo
 cp /repo/Cargo.lock harness/Cargo.lock 2>/dev/null || true
 (cd harness && CARGO_TARGET_DIR=../.build/target cargo build --release --offline -q)
+mkdir -p .build/helper && cp .build/target/release/copia-corr .build/helper/copia-corr
 CARGO_TARGET_DIR=.build/cli-target cargo build --offline -q --features cli --bin copia --manifest-path /repo/Cargo.toml
 echo setup-ok
